@@ -37,7 +37,7 @@
 From Coq Require Import Permutation.
 From Eino Require Import Base.Util Model.Options Model.OptionsSpec Model.OptionsResume Model.OptionsAll
   Proofs.Options Proofs.OptionsResume Proofs.OptionsFired Proofs.OptionsPerm Proofs.OptionsClauses
-  Proofs.OptionsAll Proofs.OptionsFails Proofs.OptionsMult.
+  Proofs.OptionsAll Proofs.OptionsFails Proofs.OptionsMult Proofs.OptionsIface.
 From Eino Require Import Model.OptionsHosted Proofs.OptionsHosted.
 From Eino Require Base.GoSlice Proofs.CallbacksSlice Model.OptionsSlice Proofs.OptionsSlice Proofs.OptionsSliceScript.
 Local Open Scope N_scope.
@@ -102,6 +102,30 @@ Theorem designated_to_graph_reaches_inside :
     else if prefixb p p' && ty_matches o ty' then o_items o else [].
 Proof. exact designated_to_graph. Qed.
 Print Assumptions designated_to_graph_reaches_inside.
+
+(* ... "and no node of another type", for the node types no option value can have: a lambda
+   DECLARED with an interface option type (opts ...any, opts ...fmt.Stringer) has an option type
+   that is the Go type of no value (reflect.TypeOf never yields an interface type; the code matches
+   by identity of the types, not by assignability). Whatever the call passes — however many of the
+   values would be assignable to the interface — such a node receives nothing, unless an option
+   with values is designated to that very node ... *)
+Theorem valueless_type_receives_nothing :
+  forall opts p ty,
+    (forall o, In o opts -> forall it, In it (o_items o) -> fst it <> ty) ->
+    (forall o, In o opts -> In p (o_paths o) -> o_items o = []) ->
+    spec_delivered opts p ty = [].
+Proof. exact valueless_type_receives_nothing_l. Qed.
+Print Assumptions valueless_type_receives_nothing.
+
+(* ... which is a designation of the wrong type, at any depth of the nesting (an error of the call
+   by bad_designation_errors / call_fails_iff below). *)
+Theorem valueless_type_designation_is_bad :
+  forall F o p nd ty,
+    (forall it, In it (o_items o) -> fst it <> ty) -> o_items o <> [] ->
+    resolve F 0 p = Some nd -> n_kind nd = KComp ty ->
+    bad_path F o 0 p = true.
+Proof. exact valueless_type_designation_is_bad_l. Qed.
+Print Assumptions valueless_type_designation_is_bad.
 
 (* ---- bad_designation_errors -------------------------------------------------------- *)
 (* The call fails iff some designated path of some option is bad; nothing else makes it fail
@@ -644,4 +668,22 @@ Example nil_value_example :
   /\ run_call exF [mkOpt [(11, 1)] [] []; mkOpt [(11, 2)] [] [[2]]] =
      Ok [ mkRep [] None (Some []); mkRep [1] (Some []) (Some []); mkRep [2] None (Some []);
           mkRep [2; 1] (Some []) (Some []); mkRep [2; 3] (Some []) (Some []); mkRep [3] (Some []) None ].
+Proof. repeat split; try (vm_compute; reflexivity). eexists; vm_compute; reflexivity. Qed.
+
+(* lambdas declared with an interface option type: type ids 12 (...any) and 13 (...Stringer) are the
+   types of no value. A chat-model-like option (type 6 here) and an option whose values implement
+   the interface (7) reach the nodes of their type only; handlers designated to such a lambda are
+   applied there; a value designated to it — directly or inside a sub graph — fails the call *)
+Definition exFi : forest :=
+  [ [mkNode 1 (KComp 12) true true; mkNode 2 (KSub 1%nat) true true; mkNode 3 (KComp 6) true true];
+    [mkNode 1 (KComp 13) true true; mkNode 3 (KComp 7) true true] ].
+Example interface_typed_lambda_example :
+  run_call exFi [mkOpt [(6, 1)] [] []; mkOpt [(7, 2)] [] []; mkOpt [] [9] [[1]; [2; 1]]] =
+    Ok [ mkRep [] None (Some []); mkRep [1] (Some []) (Some [9]); mkRep [2] None (Some []);
+         mkRep [2; 1] (Some []) (Some [9]); mkRep [2; 3] (Some [(7, 2)]) (Some []);
+         mkRep [3] (Some [(6, 1)]) (Some []) ]
+  /\ spec_delivered [mkOpt [(6, 1)] [] []; mkOpt [(7, 2)] [] []; mkOpt [] [9] [[1]; [2; 1]]] [2; 1] 13 = []
+  /\ bad_path exFi (mkOpt [(6, 1)] [] [[1]]) 0 [1] = true
+  /\ bad_path exFi (mkOpt [(7, 2)] [] [[2; 1]]) 0 [2; 1] = true
+  /\ (exists e, run_call exFi [mkOpt [(7, 2)] [] [[2; 1]]] = Err e).
 Proof. repeat split; try (vm_compute; reflexivity). eexists; vm_compute; reflexivity. Qed.
